@@ -212,7 +212,12 @@ impl<'a> Parser<'a> {
 
     /// Peek at the next n characters.
     fn peek_str(&self, n: usize) -> &str {
-        let end = (self.pos + n).min(self.input.len());
+        let mut end = (self.pos + n).min(self.input.len());
+        // `n` counts bytes: back off rather than split a multi-byte character
+        // (`1.é` asked for the two bytes after `1`, which ends inside `é`).
+        while !self.input.is_char_boundary(end) {
+            end -= 1;
+        }
         &self.input[self.pos..end]
     }
 
